@@ -1,6 +1,379 @@
 import RsMatterVerif.Lemmas.Acl
-/-! # C05 — access is granted exactly when the Matter access-control algorithm grants it -/
+/-!
+# C05 — access is granted exactly when the Matter access-control algorithm grants it
+
+`Acl.allow` etc. are the transliterated code (`Model/Acl.lean`, first half); `Acl.Granted`,
+`Acl.Reaches` are the specification written from the property text (second half of that file).
+Hypotheses used below:
+* `WF fabrics` — distinct fabric indices, every entry stamped with its fabric's index, distinct group
+  ids per fabric; `wf_*` show that the configuration operations of the API preserve it;
+* `CanonicalPrivs fabrics` — stored privileges are the five privileges of the cluster
+  (what `From<AccessControlEntryPrivilegeEnum>` produces);
+* `ReadOrWrite req` — the operation is `READ` or `WRITE` (what `check_attr_access`,
+  `check_cmd_access`, `check_event_access` pass).
+-/
 namespace C05
 open Acl
+
+/-- **C05, main theorem.** For every well-formed configuration and every read / write request,
+the access decision of the code is exactly the specification. -/
+theorem allow_iff_granted (fabrics : List Fabric) (req : AccessReq)
+    (hwf : WF fabrics) (hc : CanonicalPrivs fabrics) (hop : ReadOrWrite req) :
+    allow fabrics req = true ↔ Granted fabrics req := by
+  unfold allow fabricsAllow allowGroupcastAuxiliary Granted
+  by_cases hp : req.accessor.authMode = some AuthMode.pase
+  · simp [hp]
+  · have hp' : (req.accessor.authMode == some AuthMode.pase) = false := by simp [hp]
+    rw [hp']
+    simp only [Bool.false_eq_true, if_false, hp, false_or]
+    by_cases h0 : req.accessor.fabIdx = 0
+    · simp [h0]
+    · have h0' : (req.accessor.fabIdx == 0) = false := by simp [h0]
+      rw [h0']
+      simp only [Bool.false_eq_true, if_false]
+      cases hg : fabricsGet fabrics req.accessor.fabIdx with
+      | none =>
+        have hn := fabricsGet_none hg
+        simp only [Bool.or_eq_true]
+        constructor
+        · intro h
+          rcases h with h | h
+          · cases h
+          · split at h
+            · cases h
+            · split at h <;> cases h
+        · rintro ⟨f, hf, hi, _⟩; exact absurd hi (hn f hf)
+      | some f =>
+        obtain ⟨hf, hi⟩ := fabricsGet_some_mem hg
+        have hfa := fabricAllow_iff f req (hwf.stamped f hf) hi (hc f hf) hop
+        have haux := auxGranted_iff f req hop
+        constructor
+        · intro h
+          refine ⟨f, hf, hi, h0, ?_⟩
+          rcases (Bool.or_eq_true _ _).mp h with h | h
+          · exact Or.inl (hfa.mp h)
+          · right
+            apply haux.mp
+            by_cases ha : req.accessor.auxAclEnabled = true
+            · by_cases hm : req.accessor.authMode = some AuthMode.group
+              · simp [ha, hm] at h; exact ⟨ha, hm, h⟩
+              · simp [ha, hm] at h
+            · simp [ha] at h
+        · rintro ⟨f', hf', hi', _, h⟩
+          have : f' = f := nodup_idx_unique hwf.distinct hf' hf (hi'.trans hi.symm)
+          subst this
+          rcases h with h | h
+          · simp [hfa.mpr h]
+          · obtain ⟨ha, hm, hg⟩ := haux.mpr h
+            simp [ha, hm, hg]
+
+/-! ## the executable specification used by the driver -/
+
+theorem privOkB_iff (pb : Nat) (o : AccessDesc) : privOkB pb o = true ↔ PrivOk pb o := by
+  unfold privOkB PrivOk
+  cases h1 : o.targetPerms with
+  | none => simp
+  | some decl =>
+    cases h2 : opOfBits o.operation with
+    | none => simp
+    | some op =>
+      cases h3 : privOfBits pb with
+      | none => simp
+      | some p =>
+        cases h4 : requiredPriv decl op with
+        | none => simp [h4]
+        | some q => simp [h4]
+
+theorem auxRootExcludedB_iff (e : Entry) (req : AccessReq) :
+    auxRootExcludedB e req = true ↔ AuxRootExcluded e req := by
+  unfold auxRootExcludedB AuxRootExcluded
+  cases h : e.targets with
+  | none => simp [and_assoc]
+  | some ts => cases ts <;> simp [and_assoc]
+
+theorem entryGrantsB_iff (e : Entry) (req : AccessReq) : entryGrantsB e req = true ↔ EntryGrants e req := by
+  unfold entryGrantsB EntryGrants
+  simp only [Bool.and_eq_true, decide_eq_true_iff, subjectsOkB_iff, targetsOkB_iff, privOkB_iff,
+    Bool.not_eq_true', ← Bool.not_eq_true, auxRootExcludedB_iff, and_assoc]
+
+theorem auxGrantsB_iff (f : Fabric) (req : AccessReq) : auxGrantsB f req = true ↔ AuxGrants f req := by
+  unfold auxGrantsB AuxGrants
+  simp only [Bool.and_eq_true, decide_eq_true_iff, List.any_eq_true, subjectMatchB_iff, privOkB_iff, and_assoc]
+  refine and_congr Iff.rfl (and_congr Iff.rfl ?_)
+  constructor
+  · rintro ⟨g, hg, h1, h2, h3, h4⟩
+    refine ⟨g, hg, h1, ?_, h3, h4⟩
+    cases hep : req.object.path.endpoint with
+    | none => simp [hep] at h2
+    | some ep => simp [hep] at h2; exact ⟨ep, rfl, h2⟩
+  · rintro ⟨g, hg, h1, ⟨ep, hep, h2⟩, h3, h4⟩
+    refine ⟨g, hg, h1, ?_, h3, h4⟩
+    simp [hep, h2]
+
+/-- the executable specification the driver evaluates is the specification -/
+theorem grantedB_iff (fabrics : List Fabric) (req : AccessReq) :
+    grantedB fabrics req = true ↔ Granted fabrics req := by
+  unfold grantedB Granted
+  simp only [Bool.or_eq_true, Bool.and_eq_true, decide_eq_true_iff, List.any_eq_true, entryGrantsB_iff,
+    auxGrantsB_iff, and_assoc]
+
+theorem reachesB_iff (fabrics : List Fabric) (a : Accessor) (ep : Nat) :
+    reachesB fabrics a ep = true ↔ Reaches fabrics a ep := by
+  unfold reachesB Reaches
+  simp only [Bool.or_eq_true, Bool.and_eq_true, decide_eq_true_iff, List.any_eq_true,
+    List.contains_eq_mem, and_assoc]
+
+
+/-! ## `Access::is_ok` and the privilege lattice -/
+
+/-- `Access::is_ok(decl, op, p)` holds exactly when the declaration offers the operation and the
+entry's privilege includes the least privilege the declaration names for it. -/
+theorem is_ok_iff_level (decl : Nat) (op : Op) (p : Priv) :
+    isOk decl op.bits p.bits = true ↔
+      declOffers decl op = true ∧ ∃ q, requiredPriv decl op = some q ∧ p.includes q = true := by
+  rw [isOk_eq_spec]
+  unfold privSpecB
+  cases h : requiredPriv decl op with
+  | none => simp
+  | some q => simp
+
+theorem requiredPriv_ne_proxyView (decl : Nat) (op : Op) : requiredPriv decl op ≠ some Priv.proxyView := by
+  unfold requiredPriv
+  cases op <;> simp only <;> (repeat' split) <;> simp
+
+/-- an entry carrying ProxyView authorises no read and no write of any element -/
+theorem proxy_view_grants_nothing (decl : Nat) (op : Op) :
+    isOk decl op.bits Priv.proxyView.bits = false := by
+  rw [Bool.eq_false_iff]
+  intro h
+  obtain ⟨_, q, hq, hi⟩ := (is_ok_iff_level decl op Priv.proxyView).mp h
+  cases q <;> first | exact absurd hq (requiredPriv_ne_proxyView decl op) | cases hi
+
+/-! ## fabric separation -/
+
+/-- An entry stamped with another fabric's index matches no accessor (no hypotheses). -/
+theorem other_fabric_never_grants (e : Entry) (req : AccessReq) (aux : Bool)
+    (h : e.fabIdx ≠ some req.accessor.fabIdx) : entryAllow e req aux = false := by
+  unfold entryAllow matchAccessor
+  split
+  · rfl
+  · cases hf : e.fabIdx with
+    | none => simp
+    | some i =>
+      have : i ≠ req.accessor.fabIdx := fun hh => h (by rw [hf, hh])
+      simp [this]
+
+/-- The decision depends only on the fabric with the accessor's index: whatever other fabrics
+exist, whatever their entries say, the specification gives the same answer. -/
+theorem granted_depends_only_on_own_fabric (fabrics fabrics' : List Fabric) (req : AccessReq)
+    (h : ∀ f, f.fabIdx = req.accessor.fabIdx → (f ∈ fabrics ↔ f ∈ fabrics')) :
+    Granted fabrics req ↔ Granted fabrics' req := by
+  unfold Granted
+  refine or_congr Iff.rfl ?_
+  constructor
+  · rintro ⟨f, hf, hi, r⟩; exact ⟨f, (h f hi).mp hf, hi, r⟩
+  · rintro ⟨f, hf, hi, r⟩; exact ⟨f, (h f hi).mpr hf, hi, r⟩
+
+theorem allow_depends_only_on_own_fabric (fabrics fabrics' : List Fabric) (req : AccessReq)
+    (hwf : WF fabrics) (hc : CanonicalPrivs fabrics) (hwf' : WF fabrics') (hc' : CanonicalPrivs fabrics')
+    (hop : ReadOrWrite req)
+    (h : ∀ f, f.fabIdx = req.accessor.fabIdx → (f ∈ fabrics ↔ f ∈ fabrics')) :
+    allow fabrics req = allow fabrics' req := by
+  have := granted_depends_only_on_own_fabric fabrics fabrics' req h
+  rw [← allow_iff_granted fabrics req hwf hc hop, ← allow_iff_granted fabrics' req hwf' hc' hop] at this
+  cases h1 : allow fabrics req <;> cases h2 : allow fabrics' req <;> simp_all
+
+/-- an accessor whose fabric does not exist is denied (unless it is the PASE commissioner) -/
+theorem missing_fabric_denied (fabrics : List Fabric) (req : AccessReq)
+    (hm : ∀ f ∈ fabrics, f.fabIdx ≠ req.accessor.fabIdx)
+    (hp : req.accessor.authMode ≠ some AuthMode.pase) : allow fabrics req = false := by
+  have hg : fabricsGet fabrics req.accessor.fabIdx = none := by
+    unfold fabricsGet
+    rw [List.find?_eq_none]
+    intro f hf; simpa using hm f hf
+  unfold allow fabricsAllow allowGroupcastAuxiliary
+  simp only [hg]
+  have : (req.accessor.authMode == some AuthMode.pase) = false := by simp [hp]
+  simp [this]
+
+/-- fabric index 0 (no fabric) is denied unless the accessor is the PASE commissioner -/
+theorem fabric_zero_denied_unless_pase (fabrics : List Fabric) (req : AccessReq)
+    (h0 : req.accessor.fabIdx = 0) :
+    allow fabrics req = true ↔ req.accessor.authMode = some AuthMode.pase := by
+  unfold allow fabricsAllow allowGroupcastAuxiliary
+  by_cases hp : req.accessor.authMode = some AuthMode.pase
+  · simp [hp]
+  · have : (req.accessor.authMode == some AuthMode.pase) = false := by simp [hp]
+    simp [this, h0, hp]
+
+/-- the PASE commissioner is always granted -/
+theorem pase_always_granted (fabrics : List Fabric) (req : AccessReq)
+    (hp : req.accessor.authMode = some AuthMode.pase) : allow fabrics req = true := by
+  unfold allow fabricsAllow; simp [hp]
+
+/-! ## null = empty -/
+
+theorem empty_eq_null_subjects (e : Entry) (req : AccessReq) (aux : Bool) :
+    entryAllow { e with subjects := some [] } req aux = entryAllow { e with subjects := none } req aux := by
+  unfold entryAllow matchAccessor subjectsAllow matchAccessDesc targetsWildcard targetsAllow
+  simp
+
+theorem empty_eq_null_targets (e : Entry) (req : AccessReq) (aux : Bool) :
+    entryAllow { e with targets := some [] } req aux = entryAllow { e with targets := none } req aux := by
+  unfold entryAllow matchAccessor subjectsAllow matchAccessDesc targetsWildcard targetsAllow
+  simp
+
+
+/-! ## CAT version monotonicity -/
+
+/-- the accessor with tag `v` replaced by `v'` -/
+def withTag (a : Accessor) (v v' : Nat) : Accessor :=
+  { a with subjects := a.subjects.map (fun x => if x = v then v' else x) }
+
+theorem subjectMatch_mono (a : Accessor) (v v' s : Nat)
+    (hv : IsCat v) (hv' : IsCat v') (hid : catId v = catId v') (hver : catVersion v ≤ catVersion v')
+    (h : SubjectMatch a s) : SubjectMatch (withTag a v v') s := by
+  obtain ⟨x, hx, hx0, hm⟩ := h
+  have hv'0 : v' ≠ 0 := by
+    intro h0; rw [h0] at hv'; exact hv'.2 (by decide)
+  by_cases hxv : x = v
+  · subst hxv
+    refine ⟨v', ?_, hv'0, ?_⟩
+    · unfold withTag; simp only [List.mem_map]; exact ⟨x, hx, by simp⟩
+    · rcases hm with rfl | ⟨_, hs, hi, hle⟩
+      · by_cases he : v' = x
+        · exact Or.inl he
+        · exact Or.inr ⟨hv', hv, hid.symm, hver⟩
+      · exact Or.inr ⟨hv', hs, hid ▸ hi, Nat.le_trans hle hver⟩
+  · refine ⟨x, ?_, hx0, hm⟩
+    unfold withTag; simp only [List.mem_map]; exact ⟨x, hx, by simp [hxv]⟩
+
+/-- Raising the version of one of the accessor's tags (same identifier) never loses access:
+whatever the specification granted before is still granted. -/
+theorem cat_version_monotone_spec (fabrics : List Fabric) (req : AccessReq) (v v' : Nat)
+    (hv : IsCat v) (hv' : IsCat v') (hid : catId v = catId v') (hver : catVersion v ≤ catVersion v')
+    (h : Granted fabrics req) :
+    Granted fabrics { req with accessor := withTag req.accessor v v' } := by
+  rcases h with h | ⟨f, hf, hi, h0, h⟩
+  · exact Or.inl h
+  · refine Or.inr ⟨f, hf, hi, h0, ?_⟩
+    rcases h with ⟨e, he, hm, hs, ht, hp, hx⟩ | ⟨ha, hm, g, hg, h1, h2, h3, h4⟩
+    · refine Or.inl ⟨e, he, hm, ?_, ht, hp, hx⟩
+      rcases hs with hs | hs | ⟨ss, hss, s, hsm, hs⟩
+      · exact Or.inl hs
+      · exact Or.inr (Or.inl hs)
+      · exact Or.inr (Or.inr ⟨ss, hss, s, hsm, subjectMatch_mono _ v v' s hv hv' hid hver hs⟩)
+    · exact Or.inr ⟨ha, hm, g, hg, h1, h2, subjectMatch_mono _ v v' _ hv hv' hid hver h3, h4⟩
+
+theorem cat_version_monotone (fabrics : List Fabric) (req : AccessReq) (v v' : Nat)
+    (hwf : WF fabrics) (hc : CanonicalPrivs fabrics) (hop : ReadOrWrite req)
+    (hv : IsCat v) (hv' : IsCat v') (hid : catId v = catId v') (hver : catVersion v ≤ catVersion v')
+    (h : allow fabrics req = true) :
+    allow fabrics { req with accessor := withTag req.accessor v v' } = true := by
+  have hg := (allow_iff_granted fabrics req hwf hc hop).mp h
+  exact (allow_iff_granted fabrics { req with accessor := withTag req.accessor v v' } hwf hc hop).mpr
+    (cat_version_monotone_spec fabrics req v v' hv hv' hid hver hg)
+
+/-- a lower version than the entry asks for does not match that entry's tag -/
+theorem cat_lower_version_no_match (v s : Nat) (hne : v ≠ s) (hlt : catVersion v < catVersion s) :
+    slotMatches v s = false := by
+  rw [Bool.eq_false_iff, Ne, slotMatches_iff]
+  rintro ⟨_, h | ⟨_, _, _, hle⟩⟩
+  · exact hne h
+  · omega
+
+/-! ## group accessors -/
+
+theorem groupsGet_some_mem {gs : List GroupMapping} {i : Nat} {g : GroupMapping}
+    (h : groupsGet gs i = some g) : g ∈ gs ∧ g.groupId = i := by
+  unfold groupsGet at h
+  have h1 := List.mem_of_find?_eq_some h
+  have h2 := List.find?_some h
+  simp at h2
+  exact ⟨h1, h2⟩
+
+theorem nodup_gid_unique {gs : List GroupMapping} (hd : (gs.map (·.groupId)).Nodup)
+    {f g : GroupMapping} (hf : f ∈ gs) (hg : g ∈ gs) (h : f.groupId = g.groupId) : f = g := by
+  induction gs with
+  | nil => cases hf
+  | cons x xs ih =>
+    simp only [List.map_cons, List.nodup_cons, List.mem_map, not_exists, not_and] at hd
+    rcases List.mem_cons.mp hf with rfl | hf'
+    · rcases List.mem_cons.mp hg with rfl | hg'
+      · rfl
+      · exact absurd h.symm (hd.1 g hg')
+    · rcases List.mem_cons.mp hg with rfl | hg'
+      · exact absurd h (hd.1 f hf')
+      · exact ih hd.2 hf' hg'
+
+/-- "group accessors reach only endpoints that are members of their group" — and, for well-formed
+tables, exactly those. -/
+theorem group_reaches_only_member_endpoints (fabrics : List Fabric) (a : Accessor) (ep : Nat)
+    (hwf : WF fabrics) : isEndpointAccessible fabrics a ep = true ↔ Reaches fabrics a ep := by
+  unfold isEndpointAccessible Reaches
+  by_cases hm : a.authMode = some AuthMode.group
+  · have : (a.authMode != some AuthMode.group) = false := by simp [hm]
+    rw [this]
+    simp only [Bool.false_eq_true, if_false, hm, ne_eq, not_true_eq_false, false_or]
+    by_cases h0 : a.fabIdx = 0
+    · simp [h0]
+    · have h0' : (a.fabIdx == 0) = false := by simp [h0]
+      simp only [h0', Bool.false_eq_true, if_false]
+      cases hg : fabricsGet fabrics a.fabIdx with
+      | none =>
+        have hn := fabricsGet_none hg
+        constructor
+        · intro h; cases h
+        · rintro ⟨f, hf, hi, _⟩; exact absurd hi (hn f hf)
+      | some f =>
+        obtain ⟨hf, hi⟩ := fabricsGet_some_mem hg
+        simp only
+        cases hgg : groupsGet f.groups (a.subjects.headD 0 % 65536) with
+        | none =>
+          constructor
+          · intro h; cases h
+          · rintro ⟨f', hf', hi', _, g, hg', hgid, _⟩
+            have : f' = f := nodup_idx_unique hwf.distinct hf' hf (hi'.trans hi.symm)
+            subst this
+            unfold groupsGet at hgg
+            rw [List.find?_eq_none] at hgg
+            have := hgg g hg'
+            simp [hgid] at this
+        | some g =>
+          obtain ⟨hgm, hgid⟩ := groupsGet_some_mem hgg
+          simp only [List.contains_eq_mem, decide_eq_true_iff]
+          constructor
+          · intro h; exact ⟨f, hf, hi, h0, g, hgm, hgid, h⟩
+          · rintro ⟨f', hf', hi', _, g', hg', hgid', hep⟩
+            have : f' = f := nodup_idx_unique hwf.distinct hf' hf (hi'.trans hi.symm)
+            subst this
+            have : g' = g := nodup_gid_unique (hwf.groupsDistinct f' hf) hg' hgm (hgid'.trans hgid.symm)
+            subst this
+            exact hep
+  · have : (a.authMode != some AuthMode.group) = true := by simp [hm]
+    simp [this, hm]
+
+/-- the "only" direction needs no well-formedness at all -/
+theorem group_reaches_only_member_endpoints' (fabrics : List Fabric) (a : Accessor) (ep : Nat)
+    (hm : a.authMode = some AuthMode.group) (h : isEndpointAccessible fabrics a ep = true) :
+    ∃ f ∈ fabrics, f.fabIdx = a.fabIdx ∧ ∃ g ∈ f.groups,
+      g.groupId = (a.subjects.headD 0) % 65536 ∧ ep ∈ g.endpoints := by
+  unfold isEndpointAccessible at h
+  have : (a.authMode != some AuthMode.group) = false := by simp [hm]
+  simp only [this, Bool.false_eq_true, if_false] at h
+  split at h
+  · cases h
+  · cases hg : fabricsGet fabrics a.fabIdx with
+    | none => simp [hg] at h
+    | some f =>
+      obtain ⟨hf, hi⟩ := fabricsGet_some_mem hg
+      simp only [hg] at h
+      cases hgg : groupsGet f.groups (a.subjects.headD 0 % 65536) with
+      | none => rw [hgg] at h; cases h
+      | some g =>
+        obtain ⟨hgm, hgid⟩ := groupsGet_some_mem hgg
+        rw [hgg] at h
+        simp only [List.contains_eq_mem, decide_eq_true_iff] at h
+        exact ⟨f, hf, hi, g, hgm, hgid, h⟩
 
 end C05
